@@ -400,8 +400,28 @@ class Parser:
             self.expect('}')
             return ('initlist', items)
         if k == 'op' and v == '[':
-            raise Unsupported('lambda expression')
+            return self.lambda_()
         raise Unsupported('unexpected token %r' % v)
+
+    def lambda_(self):
+        """after '[': capture list, optional parameter list / specifiers, brace-matched body.  The body is NOT translated:
+        a lambda is an opaque value ('lambda', n) that can only initialise a symbolic local (whose uses must be bound)"""
+        def balanced(op, cl):
+            depth = 1
+            while depth:
+                k, v = self.next()
+                if k == 'eof': raise Unsupported('unterminated lambda expression')
+                if k == 'op' and v == op: depth += 1
+                elif k == 'op' and v == cl: depth -= 1
+        balanced('[', ']')
+        if self.at('('):
+            self.next(); balanced('(', ')')
+        while not self.at('{'):
+            k, v = self.next()
+            if k == 'eof' or v in (';', ')', ','): raise Unsupported('lambda expression without a body')
+        self.next(); balanced('{', '}')
+        self.nlambda = getattr(self, 'nlambda', 0) + 1
+        return ('lambda', self.nlambda)
 
     def postfix(self, e):
         while True:
@@ -468,6 +488,7 @@ def key(e, env):
     if k == 'assign': return key(e[2], env) + e[1] + key(e[3], env)
     if k == 'initlist': return '{' + ','.join(key(a, env) for a in e[1]) + '}'
     if k == 'ctor': return '(' + ','.join(key(a, env) for a in e[1]) + ')'
+    if k == 'lambda': return '[lambda%d]' % e[1]
     raise Unsupported('expression kind ' + k)
 
 
@@ -626,6 +647,7 @@ class Tr:
             a = self.tx(e[2], env)
             if op == '-' and a[1] == 'Z': return ('- %s' % P(a[0]), 'Z')
             if op == '+' and a[1] in ('Z', 'u64'): return a
+            if op == '~' and a[1] == 'Z': return ('Z.lnot %s' % P(a[0]), 'Z')      # two's complement, as for C++ int
             raise Unsupported('unary %s on %s' % (op, a[1]))
         if kind == 'bin':
             return self.tbin(e[1], e[2], e[3], env)
@@ -967,8 +989,13 @@ class Tr:
     def t_for(self, s, R, env, ctx):
         _, ty, var, ce, body = s
         ck = key(ce, env)
-        if ck not in self.lists: raise Unsupported('loop over unbound container ' + ck)
-        lterm, et = self.lists[ck]
+        if ck not in self.lists and unparen(ce)[0] == 'initlist' and unparen(ce)[1]:
+            items = [self.tx(a, env) for a in unparen(ce)[1]]
+            if len(set(t for _, t in items)) != 1 or items[0][1] not in ('Z', 'bool'):
+                raise Unsupported('loop over a braced list of mixed or non-value types')
+            lterm, et = '[' + '; '.join(t for t, _ in items) + ']', items[0][1]
+        elif ck not in self.lists: raise Unsupported('loop over unbound container ' + ck)
+        else: lterm, et = self.lists[ck]
         names = self.assigned(body, env)
         for n in names:
             if env.vals[n][0] is None: raise Unsupported('loop updates uninitialised ' + n)
